@@ -360,6 +360,36 @@ pub fn search(tier: &str, seed: u64, s: &mut Search) {
             let b = format!(r#"{hdr}<g transform="translate({x} {y}) matrix({sx} 0 0 {sy} {tx} {ty})">{content}</g></svg>"#);
             cmp(s, "nested-svg-viewbox==group", &a, &b, true);
         }
+        // a text reached through `use` takes xml:space (like every inherited property) from where it is USED
+        {
+            let content = *rng.pick(&["  a   b  ", " x  y", "p    q   ", "one  two   three"]);
+            let (tx, ty) = (rng.range(2, 40), rng.range(20, 60));
+            let text = format!(r#"<text id="t" x="3" y="4" font-size="12" font-family="Noto Sans">{content}</text>"#);
+            let (def_ctx, use_ctx) = match rng.below(4) {
+                0 => ("", r#" xml:space="preserve""#),
+                1 => (r#" xml:space="preserve""#, ""),
+                2 => (r#" xml:space="preserve""#, r#" xml:space="default""#),
+                _ => (r#" xml:space="default""#, r#" xml:space="preserve""#),
+            };
+            let a = format!(r##"{hdr}<defs{def_ctx}>{text}</defs><g{use_ctx}><use xlink:href="#t" x="{tx}" y="{ty}"/></g></svg>"##);
+            // (the copy made for a `use` does not carry the id of the referenced element)
+            let b = format!(r##"{hdr}<g{use_ctx}><g transform="translate({tx} {ty})">{}</g></g></svg>"##, text.replace(r#" id="t""#, ""));
+            cmp(s, "use-of-text==copy-in-place(xml:space)", &a, &b, false);
+        }
+        // transform-origin in percent / keywords on an instance with a size: the reference box is the viewport the
+        // `use` stands in, not the size written on the `use`
+        {
+            let (uw, uh) = (rng.range(10, 60), rng.range(10, 60));
+            let sc = *rng.pick(&["2", "0.5", "1.5"]);
+            let (px, py) = (*rng.pick(&[0i64, 25, 50, 100]), *rng.pick(&[0i64, 50, 100]));
+            let (vw, vh) = (rng.range(60, 200), rng.range(60, 200));
+            let hdr2 = format!(r#"<svg xmlns="http://www.w3.org/2000/svg" xmlns:xlink="http://www.w3.org/1999/xlink" width="{vw}" height="{vh}">"#);
+            let target = if rng.chance(2, 3) { r#"<symbol id="s" viewBox="0 0 10 10"><rect width="10" height="10" fill="teal"/><circle cx="3" cy="3" r="2"/></symbol>"# } else { r#"<svg id="s" viewBox="0 0 10 10"><rect width="10" height="10" fill="teal"/><circle cx="3" cy="3" r="2"/></svg>"# };
+            let (ox, oy) = (vw as f64 * px as f64 / 100.0, vh as f64 * py as f64 / 100.0);
+            let a = format!(r##"{hdr2}<defs>{target}</defs><use xlink:href="#s" x="{x}" y="{y}" width="{uw}" height="{uh}" transform="rotate(15) scale({sc})" transform-origin="{px}% {py}%"/></svg>"##);
+            let b = format!(r##"{hdr2}<defs>{target}</defs><use xlink:href="#s" x="{x}" y="{y}" width="{uw}" height="{uh}" transform="translate({ox} {oy}) rotate(15) scale({sc}) translate({} {})"/></svg>"##, -ox, -oy);
+            cmp(s, "transform-origin-percent-on-sized-instance", &a, &b, false);
+        }
         // a size given on `use` replaces the size of the referenced `svg` — for the viewport (clip), for the
         // viewBox mapping, and as the base of percentages inside it
         {
